@@ -14,12 +14,12 @@ MANIFEST = {
     "technique": "Coq proof (per-row token expansion from the template's PER_GUARDTRANSITION shape, brace-parser lemma, execution vs the table interpreter's step) + tokenising the real generated classes",
     "text": ("Theorems C10_handlers (for every table, state, event, guard oracle: the handler body has matching braces and executes exactly the interpreter's "
              "step for the rows of (state,event) in table order; state object and estate enum agree afterwards), C10_handlers_listed_only, C10_state_classes "
-             "(class for every state incl. target-only ones, and for nothing else), C10_context_decls_partial. Tie: the PER_GUARDTRANSITION shape and the nesting "
+             "(class for every state incl. target-only ones, and for nothing else), C10_context_decls (every guard, (action,event) signature, hook, event class with members, Is/Trigger method, enum entry, base handler and state class a row needs is declared exactly once, as (kind, name, params) triples of Model/Decls.v over Gen/DeclTmpl.v). Tie: the PER_GUARDTRANSITION shape and the nesting "
              "around it are regenerated from TEMPLATEInternals.cs into Gen/CsTmpl.v; the real <Name>Internals.cs is tokenised per class / per Trigger<Event> override "
              "and compared with CsSM.cs_handler, and independently executed by a small Python token interpreter against a Python reading of the property; "
              "context/interface declarations extracted by regex and counted."),
     "note": ("No C# compiler: the statements are about the emitted token structure and the model's reading of Exit<S>()/Enter<T>() (checked textually by the translator), "
-             "not about csc accepting the files. Context declarations: PARTIAL in Coq (element lists), observed by regex on the real files. "
+             "not about csc accepting the files. Context declarations are proved for names, parameter lists and multiplicities; the triples are read out of the real files by regex and compared with Decls.decls_file. "
              "The class/handler nesting (PER_STATETRANSITION / PER_EVENTTRANSITION) is modelled in closed form, its template shape is checked by the translator."),
 }
 RULE = ("random well-formed tables (as C08) incl. colliding signature concatenations; C# primitive member types with (trailing) defaults; StateMachineThread 0/1/absent; "
@@ -260,6 +260,7 @@ def one_case(ctx, table, spec, rng_bits):
                     sq = ctx.km.call("step_quiet", table, c, e, smlib.bits_arg(bits))
                     if ([(k.decode(), n.decode(), ev.decode()) for k, n, ev in sq[0]], sq[1].decode(), int(sq[2])) != want:
                         ctx.tie_broken("Spec step_rows_quiet vs the Python reading of the property", {"table": table, "state": c, "event": e, "bits": bits})
+    smlib.decl_correspondence(ctx, "cs", files, table, spec)
     r = check_decls(table, spec, files)
     if r:
         return r, "cs-declarations"
@@ -284,6 +285,7 @@ def run(ctx):
         ctx.count("corpus")
         if not replay(ctx, data):
             ctx.violation("corpus case %s fails" % os.path.basename(p), dict(data, finding_key=data.get("finding_key", "corpus:" + os.path.basename(p))))
+    smlib.ttmodel_batch(ctx, ctx.budget(400, 5000))   # the table model this property's model is built on
     n = ctx.budget(2500, 30000)
     for i in range(n):
         table, spec, bits = gen_case(ctx.rng, i)
